@@ -302,7 +302,8 @@ class Tr:
             a, i = n['inner']
             return '(idx %s %s)' % (self.expr(a), self.expr(i))
         if k in ('CXXConstructExpr', 'CXXTemporaryObjectExpr'):
-            args = [self.expr(a) for a in n.get('inner', [])]
+            # unit option ctor_skip_defaults (C03 RC_intersection): defaulted constructor arguments are not passed (Coordinate(x, y) -> mk_Coordinate_2)
+            args = [self.expr(a) for a in n.get('inner', []) if not (self.unit.get('ctor_skip_defaults') and a['kind'] == 'CXXDefaultArgExpr')]
             if len(args) == 1 and n.get('ctorType', {}).get('qualType', '').count('&'):
                 return args[0]      # copy / move construction is the identity
             tn = qt(n).split('::')[-1].replace(' ', '').replace('const', '')
@@ -497,6 +498,19 @@ class Tr:
             if base['kind'] == 'CXXThisExpr':
                 self.uses_this = True; self.mutates = True
                 return '(let st := %s st%s in\n %s)' % (nm, ''.join(' ' + a for a in args), cont())
+            if base['kind'] == 'DeclRefExpr' and callee['name'] in self.unit.get('out_member_calls', {}):
+                # unit option out_member_calls {method: [position of the output reference argument]} (C06): a const-in-effect void
+                # member that writes its result through a reference parameter (the callee unit uses returns_param):
+                #   obj.f(a, o);   ==>   let v_o := m_f_2 v_obj a v_o in ...
+                idxs = list(self.unit['out_member_calls'][callee['name']]); cargs = [a for a in s['inner'][1:] if a['kind'] != 'CXXDefaultArgExpr']
+                if len(idxs) != 1:
+                    raise Unsupported('out_member_calls: exactly one output argument is supported')
+                o = cargs[idxs[0]]
+                while o['kind'] in TRANSPARENT:
+                    o = o['inner'][0]
+                if o['kind'] != 'DeclRefExpr' or o['referencedDecl']['name'] not in self.locals:
+                    raise Unsupported('out_member_calls: output argument of %s is not a local variable' % callee['name'])
+                return '(let v_%s := %s v_%s%s in\n %s)' % (o['referencedDecl']['name'], nm, base['referencedDecl']['name'], ''.join(' ' + a for a in args), cont())
             if base['kind'] == 'DeclRefExpr':
                 v = 'v_' + base['referencedDecl']['name']
                 return '(let %s := %s %s%s in\n %s)' % (v, nm, v, ''.join(' ' + a for a in args), cont())
@@ -842,6 +856,10 @@ class Tr:
         self.collect_locals(self.body)
         body = self.stmts([self.body], lambda: self.ret(self.dflt))
         def coqtype(p):
+            if p.get('name') in self.unit.get('param_types', {}):
+                # unit option param_types {parameter: Gallina type} (C19): overrides the guess below (a class named
+                # ...Location, e.g. linearref::LinearLocation, is an object, not the geom::Location enumeration)
+                return self.unit['param_types'][p['name']]
             q = (p.get('type', {}).get('desugaredQualType') or p.get('type', {}).get('qualType', '')).replace('const ', '').replace('&', '').strip()
             if q == 'bool':
                 return 'bool'
